@@ -191,30 +191,29 @@ theorem assignPhase_perm (C : ClassInfo) {S1 S2 : List Spec} (hperm : S1.Perm S2
         simp only [List.nil_append] at i1 i2
         have hget : ∀ p, get ns1.props p = get ns2.props p :=
           PInv_unique (cands_perm hnorm) i1.normal i1.pinv i2.pinv
-        have hext := modPass_ext (modsOf S1) (a := ⟨ns1.props, []⟩) (b := ⟨ns2.props, []⟩) ⟨hget, rfl⟩
+        have hext := modPass_ext C.finals (modsOf S1) (a := ⟨ns1.props, []⟩) (b := ⟨ns2.props, []⟩) ⟨hget, rfl⟩
         have hmods' : S2.filter (fun s => s.modifying) = modsOf S1 := hmods.symm
         rw [hmods']
-        show (match (match modPass (modsOf S1) ⟨ns1.props, []⟩ with
+        show (match (match modPass C.finals (modsOf S1) ⟨ns1.props, []⟩ with
                 | .error e => Except.error e
-                | .ok ms => _), (match modPass (modsOf S1) ⟨ns2.props, []⟩ with
+                | .ok ms => _), (match modPass C.finals (modsOf S1) ⟨ns2.props, []⟩ with
                 | .error e => Except.error e
                 | .ok ms => _) with
               | .ok a, .ok b => PreEq a b
               | .error e1, .error e2 => stage e1 = stage e2 ∧ stage e1 ≤ 3
               | _, _ => False)
-        cases hm1 : modPass (modsOf S1) ⟨ns1.props, []⟩ with
+        cases hm1 : modPass C.finals (modsOf S1) ⟨ns1.props, []⟩ with
         | error e1 =>
-          cases hm2 : modPass (modsOf S1) ⟨ns2.props, []⟩ with
+          cases hm2 : modPass C.finals (modsOf S1) ⟨ns2.props, []⟩ with
           | error e2 =>
             rw [hm1, hm2] at hext
             simp only [ERel] at hext
             subst hext
             show stage e1 = stage e1 ∧ stage e1 ≤ 3
-            rw [modPass_error _ hm1]
-            exact ⟨rfl, by decide⟩
+            rcases modPass_error _ hm1 with h | h <;> rw [h] <;> exact ⟨rfl, by decide⟩
           | ok ms2 => rw [hm1, hm2] at hext; simp [ERel] at hext
         | ok ms1 =>
-          cases hm2 : modPass (modsOf S1) ⟨ns2.props, []⟩ with
+          cases hm2 : modPass C.finals (modsOf S1) ⟨ns2.props, []⟩ with
           | error e2 => rw [hm1, hm2] at hext; simp [ERel] at hext
           | ok ms2 =>
             rw [hm1, hm2] at hext
